@@ -174,10 +174,12 @@ PROPS = {
         # of the sequential engine count for C03 as well
         'oracles': ['C03', 'C09', 'C02'], 'bv_decide': True,
         'geoms': {'quick': ['default', 'th1'], 'thorough': ALLG},
-        'runs': {'quick': [conc(12, 60, 30, 4), seq('mixed', 20, 150), seq('lower', 20, 150)],
-                 'thorough': [conc(150, 400, 200, 20, bound=3), seq('mixed', 300, 300), seq('lower', 300, 300)]},
+        'runs': {'quick': [conc(12, 60, 30, 4), conc(2, 60, 20, 0, kind=6), seq('mixed', 20, 150), seq('lower', 20, 150)],
+                 'thorough': [conc(150, 400, 200, 20, bound=3), conc(10, 200, 100, 0, kind=6, bound=3), seq('mixed', 300, 300), seq('lower', 300, 300)]},
         'rule': T_RULE + ('Oracle: no call panics (panic capture per thread) and every free of a block the thread holds returns Ok. '
                           'The known finding K1 (spin in partial_put_huge exhausts RETRIES) is matched by its panic message. '
+                          'Scenario kind 6: a free into an offline tree racing with change_tree(Online) (oracles only: a concurrent Online is outside the '
+                          'interleaving model); the known finding K2 (counter assertion of Tree::put) is matched by its message. '
                           'Sequential histories (a special case of interleavings) with panic capture and the ownership oracle: ' + S_RULE),
         'partial': ('refuted for the unchanged code by a kernel-checked schedule (K1, known finding); sequential half proved for every history; every '
                     'interleaving proved for the whole lower allocator and for the whole public interface (get every path, put at allocation order, drain; valid parameters): no call panics (conc_public_api_no_panic), held frees succeed at the lower level; partial frees of huge allocations are the refuted case K1; change_tree under interleavings explored, not proved'),
@@ -186,9 +188,12 @@ PROPS = {
     'C04': {
         'oracles': ['C04'], 'bv_decide': True,
         'geoms': {'quick': ['default', 'th1'], 'thorough': ALLG},
-        'runs': {'quick': [unit('ent', 2000), seq('mixed', 30, 150), seq('change', 10, 150), conc(8, 40, 20, 0)],
-                 'thorough': [unit('ent', 200000), seq('mixed', 800, 300), seq('change', 200, 300), seq('drain', 200, 300), seq('init', 200, 100), conc(100, 300, 150, 0)]},
-        'rule': S_RULE + (' Accounting oracle after every call: stats() = (free frames, entirely free huge frames, entirely free trees) of the '
+        'runs': {'quick': [unit('ent', 2000), seq('mixed', 30, 150), seq('change', 10, 150), conc(8, 40, 20, 0), conc(2, 60, 20, 0, kind=7)],
+                 'thorough': [unit('ent', 200000), seq('mixed', 800, 300), seq('change', 200, 300), seq('drain', 200, 300), seq('init', 200, 100), conc(100, 300, 150, 0),
+                              conc(10, 200, 100, 0, kind=7, bound=3)]},
+        'rule': S_RULE + (' Scenario kind 7: a free into an offline tree (with another allocated frame) racing with change_tree(Online), oracles only; '
+                          'the known finding K3 (tree counter over-reports, validate() fails at the quiescent end) is matched by its message.'
+                          ' Accounting oracle after every call: stats() = (free frames, entirely free huge frames, entirely free trees) of the '
                           'shadow allocation state; tree_stats().free_frames = that minus the frames hidden by offline trees; per-class sums; '
                           'stats_at / is_free probes; validate() must not panic while no tree is offline. Concurrent: the same at the quiescent '
                           'end of every explored schedule. ' + T_RULE) + E_RULE,
